@@ -32,15 +32,23 @@ Theorem C16_redirect_slash : forall root dir o m p inm loc,
   static_decide root dir o m p inm = SRedirect loc -> ends_with_slash loc = true.
 Proof. exact redirect_ends_with_slash. Qed.
 
+(* the same holds whether the directory is opened through http.Dir (the name is cleaned) or through
+   http.FS over os.DirFS (a name with an empty, "." or ".." element is refused): so_fs selects the kind *)
+
 (* "writes nothing" is the result SPass: the model emits no writer operation on that branch.
    Modelled, not verified: http.Dir / os (symbolic links are not in the model's file tree),
    http.ServeContent (ranges, If-Modified-Since), request paths not starting with "/". *)
 
 Example C16_example :
   let root := Dir [([115]%N, File 1); ([112]%N, Dir [([97]%N, File 3)])] in   (* /s (outside), /p/a *)
-  static_decide root [[112]%N] (mkso [] [105]%N false) s_get [47;46;46;47;115]%N false = SPass /\   (* GET /../s *)
-  static_decide root [[112]%N] (mkso [] [105]%N false) s_get [47;120;47;46;46;47;97]%N false = SServe 3 [[97]%N].
-Proof. vm_compute. split; reflexivity. Qed.
+  static_decide root [[112]%N] (mkso [] [105]%N false false) s_get [47;46;46;47;115]%N false = SPass /\   (* GET /../s *)
+  static_decide root [[112]%N] (mkso [] [105]%N false false) s_get [47;120;47;46;46;47;97]%N false = SServe 3 [[97]%N] /\
+  (* through http.FS: "/a" is served, "/x/../a" and "/a//" are not valid fs paths, "/../s" neither *)
+  static_decide root [[112]%N] (mkso [] [105]%N false true) s_get [47;97]%N false = SServe 3 [[97]%N] /\
+  static_decide root [[112]%N] (mkso [] [105]%N false true) s_get [47;120;47;46;46;47;97]%N false = SPass /\
+  static_decide root [[112]%N] (mkso [] [105]%N false true) s_get [47;97;47;47]%N false = SServe 3 [[97]%N] /\
+  static_decide root [[112]%N] (mkso [] [105]%N false true) s_get [47;46;46;47;115]%N false = SPass.
+Proof. vm_compute. repeat split. Qed.
 
 Redirect "assum/C16.1" Print Assumptions C16_clean_no_dotdot.
 Redirect "assum/C16.2" Print Assumptions C16_contained.
